@@ -48,6 +48,7 @@ def run(ctx):
     ctx.rule("R12.k", "constructor model: Parameters._setup_params (with _instantiate_param) interpreted abstractly on 288 combinations of keywords x reference modes (plain value / reference with a value / reference without a value yet / asynchronous reference) x an unknown keyword: own copy of every instantiate=True default and pinned constants before any keyword is applied (and still there when a keyword assigns nothing), exactly the specified assignments, every reference and only references recorded", floor=1)
     ctx.rule("R12.u2", "update model (shared with R05.m): the transient Event mode that Parameters._update switches for the keys it assigns is switched on the instance's OWN Parameter objects "
                        "(`self_[name]`), never on the class-level ones shared with the other instances", floor=1)
+    ctx.rule("R12.b2", "Number.set_in_bounds(obj, val) assigns on `obj` (its own argument), never on the Parameter's owner", floor=1)
     ctx.rule("R12.e", "an instance that never set a parameter follows the class default in EVERY reader (shared with R13.g): get_value_generator / inspect_value fall back to the class-level "
                       "Parameter's default, not to the default frozen on a per-instance copy", floor=1)
     ctx.rule("R12.j", "a constructor keyword does not change the class: the one validator that extends the Parameter it runs on (Selector._ensure_value_is_in_objects) must not run on the "
@@ -301,6 +302,7 @@ def run(ctx):
     constructor_value_extends_the_class(ctx, "R12.j")
     from checks.c13 import value_reporters_agree
     value_reporters_agree(ctx, "R12.e")
+    set_in_bounds_assigns_on_the_target(ctx, "R12.b2")
     from checks import namespace_model
     namespace_model.report(ctx, "R12.q")
 
@@ -430,3 +432,27 @@ def constructor_value_extends_the_class(ctx, rule):
     else:
         ctx.ok(rule, sel, sel.node, "a value given to the constructor cannot extend the class-level objects (%s)" % (
             "no validator appends in place" if not appends else "per-instance copies do not depend on `initialized`" if not needs_init else "the instance is initialised before the keywords are applied"))
+
+
+def set_in_bounds_assigns_on_the_target(ctx, rule):
+    """Number.set_in_bounds(obj, val) assigns the cropped value ON `obj`: the assignment is `super().__set__(obj, ...)`,
+    `self.__set__(obj, ...)` or `setattr(obj, ...)` with the method's own `obj` parameter.  Assigned on `self.owner`,
+    a call through a class-level, inherited or per_instance=False Parameter object changes the CLASS default."""
+    f = ctx.repo.func("param.parameters.Number.set_in_bounds")
+    objp = f.params[1] if len(f.params) > 1 else None
+    sets = []
+    for c in ast.walk(f.node):
+        if isinstance(c, ast.Call):
+            fn = norm(c.func)
+            if fn.endswith(".__set__") and c.args:
+                sets.append((c, norm(c.args[0])))
+            elif fn == "setattr" and c.args:
+                sets.append((c, norm(c.args[0])))
+    ctx.require(sets and objp, "Number.set_in_bounds no longer assigns through __set__ / setattr")
+    bad = [(c, tgt) for c, tgt in sets if tgt != objp]
+    if bad:
+        ctx.fail(rule, f, bad[0][0], "Number.set_in_bounds assigns on `%s`, not on its `%s` argument: through a class-level, inherited or per_instance=False Parameter object the value lands on the "
+                                     "class and becomes the default every other instance sees" % (bad[0][1], objp), key=f.qualname + "::assigns-on-another-object",
+                 input="N.param.n.set_in_bounds(a, -10) -> N.n == 0 for the class and all instances that never set n")
+    else:
+        ctx.ok(rule, f, sets[0][0], "set_in_bounds assigns on the object it is given")
